@@ -41,7 +41,7 @@ CLAIMED['C01'] = dict(
          'source and checked by decide; three known findings proved as counterexamples (FIFO count, read-file-record response layout, '
          'multi-word diagnostic request); enc_readFileRecord_req_conforms / enc_writeFileRecord_req_conforms / enc_writeFileRecord_resp_conforms / '
          'dec_readFileRecord_req_conforms / dec_writeFileRecord_req_conforms / dec_writeFileRecord_resp_conforms (file-record PDUs, every list '
-         'of sub-requests, by induction). Device-identification PDUs are covered by the correspondence harness (and C20). Decoders are isolated: vendor classes registered on one decoder must not change what any other decoder of the process makes of a standard PDU.',
+         'of sub-requests, by induction). Device-identification PDUs are covered by the correspondence harness (and C20). Decoders are isolated: vendor classes registered on one decoder must not change what any other decoder of the process makes of a standard PDU. Objects are also edited in place after a first encode (lists overwritten / bits flipped) and must encode the PDU of their current field values.',
     design='6/C01', technique='Lean 4 proof of codec conformance to a spec transcription + differential correspondence',
     note='Spec/PduSpec.lean is a transcription of Modbus Application Protocol v1.1b3 section 6-7 (trusted).')
 CLAIMED['C02'] = dict(
@@ -94,7 +94,7 @@ CLAIMED['C06'] = dict(
     text='Kernel-checked: chunking_independent — for each of the TCP, RTU, ASCII and binary receivers and ANY division of a stream of valid '
          'frames into chunks (every cut set, empty reads included, any number of frames) the deliveries are exactly the messages of the '
          'frames in order, no exception escapes and the buffer ends empty; proved by induction over the chunk list from two facts per '
-         'framer (a built frame is recognised whatever follows it; every proper prefix of it makes the receiver wait). The harness cuts streams of every message class (FIFO / file-record replies relative to what one frame per read delivers) at every position, byte by byte and at random cut sets.',
+         'framer (a built frame is recognised whatever follows it; every proper prefix of it makes the receiver wait). The harness cuts streams of every message class (FIFO / file-record replies relative to what one frame per read delivers) at every position, byte by byte and at random cut sets. The binary case needs only NoEnd (no 0x7D between the braces): frames with the start delimiter 0x7B in the CRC or as unit id are covered (example in Props). One history in five runs with DEBUG logging on.',
     design='6/C06', technique='Lean 4 induction over arrival schedules (generic receive loop + per-framer step lemmas) + differential correspondence',
     note='The framer state is modelled as its buffer (the header dict is recomputed from the buffer head); checked call by call against the real framers on every run.')
 CLAIMED['C07'] = dict(
@@ -191,7 +191,7 @@ CLAIMED['C10'] = dict(
          'broadcast_no_response, broadcast_unit_accepted, other_requests_leave_tables, unit0_ordinary_without_broadcast, single_mode_any_unit. All seven real front-ends '
          'are run each run on hosted sets incl. 0/255 with per-unit dumps after every request; final tables are checked against the '
          'per-unit projection of the history executed by the register-file spec. Histories include units removed from the context at run time '
-         '(del context[u]) and units ATTACHED at run time to a server that was built — by the front-end\'s real constructor — around a context without units; the model carries the unit list a handler read before its blocking read (Conn.snap), as the sync TCP and asyncio handlers do. Noisy lines: the head of a frame for one hosted unit followed by a complete request to another - no unit changes unless a complete valid frame addresses it.',
+         '(del context[u]) and units ATTACHED at run time to a server that was built — by the front-end\'s real constructor — around a context without units; the model carries the unit list a handler read before its blocking read (Conn.snap), as the sync TCP and asyncio handlers do. Noisy lines: the head of a frame for one hosted unit followed by a complete request to another - no unit changes unless a complete valid frame addresses it. Kernel-checked in addition: handleEvents_untouched / connStep_untouched (whatever bytes arrive, the tables of a hosted unit change only through a DELIVERED request that addresses it or is a broadcast). Run-time `context[v] = slave` steps; two sync TCP connections really interleaved between checkFrame and populateResult (one handler thread parked at the decoder).',
     design='6/C10', technique='Lean 4 proof over the server front-end model (unit routing) + differential correspondence + projection oracle',
     note=SERVER_NOTE)
 CLAIMED['C12'] = dict(
